@@ -44,6 +44,10 @@ KINDS = {
     "DB": ["D3"],
     "CA": ["C1"],
     "CB": ["C2", "C3"],
+    "MET": ["M1", "M2"],
+    "ALA": ["L1"],
+    "GLY": ["G1", "G2"],
+    "LYS": ["K1", "K2", "K3"],
 }
 
 # key -> (molecule name in the topology, residue kinds, residue numbers used in the
@@ -57,13 +61,22 @@ SPECIES = {
     # repeated residues that share the SAME topology residue number with another residue in between
     "S4": ("DIM", ["DA", "DB", "DA", "DB"], [1, 2, 1, 2], [0, 1, 2, 3]),   # numbering restarts in a dimer
     "S5": ("TRC", ["CA", "CB", "CA"], [1, 1, 1], [0, 1, 2]),               # one topology number for all residues
+    # distinct residue-kind sequences that share the FIRST kind (P1, P2) or the LAST kind (P1, P3): the search for the
+    # first free run of a topology must look at every occurrence of its first kind.  No species ends with MET or
+    # starts with ALA/GLY, so a pattern occurs in a file only where an instance of its species is.
+    "P1": ("PEPA", ["MET", "ALA"], [1, 2], [0, 1]),
+    "P2": ("PEPG", ["MET", "GLY"], [1, 2], [0, 1]),
+    "P3": ("PEPK", ["LYS", "ALA"], [1, 2], [0, 1]),
 }
 FILE_SPECIES = ["S1", "S2", "S3", "W"]          # alphabet A (the property's four species)
 LOADABLE = ["S1", "S2", "S3"]
 FILE_SPECIES_B = ["S4", "S5", "S2", "W"]        # alphabet B: restarted / constant topology residue numbers
-ALPHABETS = {"A": FILE_SPECIES, "B": FILE_SPECIES_B}
-ALL_FILE_SPECIES = ["S1", "S2", "S3", "S4", "S5", "W"]
-ALL_LOADABLE = ["S1", "S2", "S3", "S4", "S5"]
+FILE_SPECIES_C = ["P1", "P2", "P3", "W"]        # alphabet C: species sharing their first / last residue kind
+ALPHABETS = {"A": FILE_SPECIES, "B": FILE_SPECIES_B, "C": FILE_SPECIES_C}
+SCOPE_PREFIX = {"A": "", "B": "restarted-resnr.", "C": "shared-first-kind."}
+DISJOINT_KIND_SPECIES = ["S1", "S2", "S3", "S4", "S5", "W"]     # pairwise no common residue kind
+ALL_FILE_SPECIES = ["S1", "S2", "S3", "S4", "S5", "P1", "P2", "P3", "W"]
+ALL_LOADABLE = ["S1", "S2", "S3", "S4", "S5", "P1", "P2", "P3"]
 
 CLAUSES = {
     "constructs": "System.__init__/ensures.accepts_topologies_of_present_species",
@@ -144,9 +157,11 @@ def _info_bounded(prop):
                         "topology whose residue kinds are in the file but never as a run.  Each task evaluates one clause "
                         "group over the whole scope, so a clause has one obligation per scope family.  Plus: files of solvent "
                         "only (empty System), seeded random longer systems (7..24 quick / 7..60 thorough molecules, runs of "
-                        "equal molecules, over all six file species), a second exhaustive alphabet (restarted-resnr: DIM = "
+                        "equal molecules, over all nine file species), a second exhaustive alphabet (restarted-resnr: DIM = "
                         "(DA,1)(DB,2)(DA,1)(DB,2), TRC = (CA,1)(CB,1)(CA,1), one-atom ION, solvent; <=3 quick / <=5 thorough) "
-                        "whose repeated residues share one topology residue number with another residue in between, a "
+                        "whose repeated residues share one topology residue number with another residue in between, a third "
+                        "exhaustive alphabet (shared-first-kind: PEPA = MET,ALA; PEPG = MET,GLY; PEPK = LYS,ALA; solvent; <=4 "
+                        "quick / <=5 thorough) of distinct residue-kind sequences sharing their first or last residue kind, a "
                         "history family (every sequence <=3 quick / <=5 thorough, every loading order, every split point k "
                         "incl. 0: System(fgro, *first_k), all clauses evaluated (reads through every access route), then the "
                         "remaining topologies loaded one by one with add_ftop / add_molecule_top(MoleculeTop(..)), all "
@@ -722,7 +737,7 @@ def task_exhaustive(maxlen, group, part, nparts, seed, alphabet="A"):
     """The clause group ``group`` of EXH_GROUPS evaluated on every (sequence, loading order) of the scope
     (or on the part ``part`` of ``nparts`` of the sequences, thorough tier)."""
     only = dict(EXH_GROUPS)[group]
-    fam = Family(("" if alphabet == "A" else "restarted-resnr.") + f"seq<={maxlen}"
+    fam = Family(SCOPE_PREFIX[alphabet] + f"seq<={maxlen}"
                  + (f".part{part:02d}of{nparts}" if nparts > 1 else ""))
     files = Files()
     t0 = time.time()
@@ -1032,21 +1047,44 @@ def task_guards(maxlen, seed):
                           backend="runtime-contract", expect="refuted", sample=dict(sample, **(extra or {}))))
 
         # scope size (vacuity): closed form for the number of enumerated sequences
-        nseq = sum(1 for _ in sequences(maxlen)) + sum(1 for _ in sequences(maxlen, "B"))
-        ncases = sum(len(orders(s)) for ab in "AB" for s in sequences(maxlen, ab))
-        want_seq = 2 * sum(4 ** n - 1 for n in range(1, maxlen + 1))
+        nseq = sum(1 for ab in "ABC" for _ in sequences(maxlen, ab))
+        ncases = sum(len(orders(s)) for ab in "ABC" for s in sequences(maxlen, ab))
+        want_seq = 3 * sum(4 ** n - 1 for n in range(1, maxlen + 1))
         out.append(ob(f"{PROP}/scope/guard.enumeration-complete/seq<={maxlen}",
                       "discharged" if nseq == want_seq and ncases >= nseq else "refuted", kind="guard",
                       engine="smallscope", backend="runtime-contract", expect="discharged",
                       sample={"sequences": nseq, "cases": ncases, "solvent_only_sequences": maxlen}))
-        # precondition: signatures distinct, species share no residue kind
+        # precondition: residue-kind signatures distinct; alphabets A and B: species share no residue kind
         sigs = [(k, len(v)) for k, v in KINDS.items()]
         kinds_of = {k: set(SPECIES[k][1]) for k in ALL_FILE_SPECIES}
-        disjoint = all(not (kinds_of[a] & kinds_of[b]) for a in ALL_FILE_SPECIES for b in ALL_FILE_SPECIES if a < b)
+        dj = DISJOINT_KIND_SPECIES
+        disjoint = all(not (kinds_of[a] & kinds_of[b]) for a in dj for b in dj if a < b)
+        apart = all(not (kinds_of[a] & kinds_of[b]) for a in dj for b in FILE_SPECIES_C if b != "W" and a != "W")
         out.append(ob(f"{PROP}/scope/guard.precondition-distinct-signatures",
-                      "discharged" if len(set(sigs)) == len(sigs) and disjoint else "refuted", kind="guard",
+                      "discharged" if len(set(sigs)) == len(sigs) and disjoint and apart else "refuted", kind="guard",
                       engine="smallscope", backend="runtime-contract", expect="discharged",
                       sample={"signatures": sigs}))
+        # alphabet C: distinct residue-kind sequences, really sharing first / last kinds, and unambiguous: in every file
+        # of the scope a species' residue-kind sequence occurs only where one of its instances starts
+        pc = [k for k in FILE_SPECIES_C if k != "W"]
+        kseq = {k: tuple(SPECIES[k][1]) for k in pc}
+        shares = (any(kseq[a][0] == kseq[b][0] for a in pc for b in pc if a < b)
+                  and any(kseq[a][-1] == kseq[b][-1] for a in pc for b in pc if a < b))
+        unamb = True
+        for sq in sequences(min(maxlen, 4), "C"):
+            stream, starts = [], {}
+            for key in sq:
+                starts[len(stream)] = key
+                stream += SPECIES[key][1]
+            for k in pc:
+                n = len(kseq[k])
+                for i in range(len(stream) - n + 1):
+                    if tuple(stream[i:i + n]) == kseq[k] and starts.get(i) != k:
+                        unamb = False
+        out.append(ob(f"{PROP}/scope/guard.precondition-shared-kinds-distinct-unambiguous-sequences",
+                      "discharged" if len(set(kseq.values())) == len(kseq) and shares and unamb else "refuted",
+                      kind="guard", engine="smallscope", backend="runtime-contract", expect="discharged",
+                      sample={"kind_sequences": {k: list(v) for k, v in kseq.items()}}))
         # 0. the contract holds on the reference case (otherwise the must-fail guards below show nothing:
         #    they are only evaluated when it does)
         r0 = Result()
@@ -1119,10 +1157,12 @@ def _tasks_bounded(prop, tier, seed):
     if tier == "quick":
         maxlen, nparts, nr = 4, 1, 2
         maxlen_b, nparts_b = 3, 1
+        maxlen_c, nparts_c = 4, 1
         maxlen_h, nparts_h = 3, 1
     else:
         maxlen, nparts, nr = 6, 6, 16
         maxlen_b, nparts_b = 5, 2
+        maxlen_c, nparts_c = 5, 2
         maxlen_h, nparts_h = 5, 4
     lim = 600.0 if tier == "quick" else 2400.0
     for group, _ in EXH_GROUPS:
@@ -1138,6 +1178,10 @@ def _tasks_bounded(prop, tier, seed):
         for p in range(nparts_b):
             t.append((f"restarted-resnr/seq<={maxlen_b}/{group}" + (f"/part{p:02d}" if nparts_b > 1 else ""),
                       task_exhaustive, (maxlen_b, group, p, nparts_b, seed, "B"), lim))
+    for group, _ in EXH_GROUPS:
+        for p in range(nparts_c):
+            t.append((f"shared-first-kind/seq<={maxlen_c}/{group}" + (f"/part{p:02d}" if nparts_c > 1 else ""),
+                      task_exhaustive, (maxlen_c, group, p, nparts_c, seed, "C"), lim))
     t.append(("solvent-only", task_solvent_only, (maxlen, seed), 120.0))
     for p in range(nr):
         t.append((f"random-longer/part{p:02d}", task_random, (tier, p, nr, seed), 300.0 if tier == "quick" else 1200.0))
